@@ -8,6 +8,7 @@ BOUNDARY_BASES = [8, 16, 32, 64, 128, 1, 2, 3, 7, 9, 12, 15, 17, 24, 31, 33, 48,
 class Gen:
     def __init__(self, seed, tier):
         self.rng = random.Random(seed)
+        self.rng_order = random.Random('argument-order|%s' % seed)
         self.tier = tier
         self.decls = []
         self.counter = 0
@@ -80,8 +81,18 @@ class Gen:
             bits_kw = self.rng.random() < 0.8
         else:
             bits_kw = entries[0][0] == 'r'
-        return {'name': name, 'ty': ty, 'bits_kw': bits_kw, 'list': lst, 'entries': [list(e) for e in entries],
-                'count': count, 'stride': stride, 'acc': acc, 'doc': doc}
+        f = {'name': name, 'ty': ty, 'bits_kw': bits_kw, 'list': lst, 'entries': [list(e) for e in entries],
+             'count': count, 'stride': stride, 'acc': acc, 'doc': doc}
+        # the arguments of bit(..)/bits(..) may come in any order; `stride: n` is accepted like `stride = n`
+        ro = self.rng_order
+        if (lst or len(entries) == 1) and ro.random() < (0.6 if stride is not None else 0.25):
+            n = 1 + (1 if acc else 0) + (1 if stride is not None else 0)
+            order = list(range(n))
+            ro.shuffle(order)
+            f['order'] = order
+        if stride is not None and ro.random() < 0.2:
+            f['stride_sep'] = ': '
+        return f
 
     def type_for_width(self, n, allow_bool=True):
         """a random field type with exactly n bits"""
